@@ -66,63 +66,105 @@ Definition cmpnum_x (a b : num) : comparison := xcmp (nkey a) (nkey b).
 Lemma fcmp_antisym x y : antisym fcmp x y.
 Proof. unfold antisym. rewrite !fcmp_xcmp. apply xcmp_antisym. Qed.
 
+Lemma dyq0 i : dyq i 0 = inject_Z i.
+Proof. unfold dyq. simpl. rewrite Z.mul_1_r. reflexivity. Qed.
+
+Lemma Qcompare_inject a b : Qcompare (inject_Z a) (inject_Z b) = Z.compare a b.
+Proof. unfold Qcompare, inject_Z. simpl. rewrite !Z.mul_1_r. reflexivity. Qed.
+
+Lemma trunc_cmp i m e :
+  match Z.compare i (ftrunc (FFin m e)) with
+  | Eq => fcmp (FFin 0 0) (ffrac (FFin m e))
+  | c => c
+  end = Qcompare (inject_Z i) (dyq m e).
+Proof.
+  unfold ftrunc, ffrac, dyq. destruct (Z.leb_spec 0 e) as [He|He].
+  - rewrite Qcompare_inject. destruct (Z.compare i (m * 2 ^ e)); reflexivity.
+  - set (d := 2 ^ (- e)).
+    assert (Hd : 0 < d) by (apply Z.pow_pos_nonneg; lia).
+    rewrite fcmp_xcmp. unfold xcmp, dyq.
+    destruct (Z.leb_spec 0 e) as [He'|_]; [lia|]. fold d.
+    unfold Qcompare, inject_Z. simpl Qnum. simpl Qden.
+    rewrite (Z2Pos.id d Hd). rewrite !Z.mul_1_r. simpl (0 * d).
+    pose proof (Z.quot_rem' m d) as Hqr.
+    assert (Hr : Z.abs (Z.rem m d) < Z.abs d) by (apply Z.rem_bound_abs; lia).
+    set (t := Z.quot m d) in *. set (r := Z.rem m d) in *.
+    destruct (Z.compare_spec i t) as [E|L|G].
+    + subst i. destruct (Z.compare_spec 0 r); symmetry;
+        [apply Z.compare_eq_iff | apply Z.compare_lt_iff | apply Z.compare_gt_iff]; nia.
+    + symmetry. apply Z.compare_lt_iff. nia.
+    + symmetry. apply Z.compare_gt_iff. nia.
+Qed.
+
+Lemma Qcmp_ge (q h : Q) : Qcompare q h <> Lt -> (h <= q)%Q.
+Proof.
+  intros H. apply Qle_alt. rewrite (Qcompare_antisym' q h).
+  destruct (Qcompare q h); simpl; congruence.
+Qed.
+
+Lemma cmp_exact_xcmp i f lo hi : lo <= i < hi -> cmp_exact i f lo hi = xcmp (FFin i 0) f.
+Proof.
+  intros R. unfold cmp_exact. destruct f as [|[|]|m e]; try reflexivity.
+  unfold fge. unfold xcmp, flt, isnan. rewrite (dyq0 hi), (dyq0 lo), (dyq0 i). simpl orb. simpl andb.
+  set (q := dyq m e).
+  destruct (Qcompare q (inject_Z lo)) eqn:E1;
+    [| symmetry; apply Qgt_alt; apply Qlt_alt in E1;
+       eapply Qlt_le_trans; [exact E1|]; rewrite <- Zle_Qle; lia |];
+    (destruct (Qcompare q (inject_Z hi)) eqn:E2; simpl;
+     [ symmetry; apply Qlt_alt; apply Qlt_le_trans with (inject_Z hi);
+       [rewrite <- Zlt_Qlt; lia | apply Qcmp_ge; congruence]
+     | apply trunc_cmp
+     | symmetry; apply Qlt_alt; apply Qlt_le_trans with (inject_Z hi);
+       [rewrite <- Zlt_Qlt; lia | apply Qcmp_ge; congruence] ]).
+Qed.
+
+Lemma cmp_int_float_exact x f : num_wf x -> cmp_int_float x f = xcmp (nkey x) f.
+Proof.
+  destruct x as [z|n|g]; simpl; intros H.
+  - apply cmp_exact_xcmp. unfold mini64, maxi64 in H. lia.
+  - apply cmp_exact_xcmp. lia.
+  - apply fcmp_xcmp.
+Qed.
+
 Lemma cmpnum_antisym a b : antisym cmpnum a b.
 Proof.
   unfold antisym.
   destruct a as [za|na|fa], b as [zb|nb|fb]; simpl;
-    try apply fcmp_antisym.
+    try apply fcmp_antisym;
+    try (match goal with |- _ = CompOpp (CompOpp ?c) => destruct c; reflexivity end);
+    try reflexivity.
   - apply Z.compare_antisym.
   - destruct (za <? 0); [reflexivity | apply Z.compare_antisym].
   - destruct (zb <? 0); [reflexivity | apply Z.compare_antisym].
   - apply N.compare_antisym.
 Qed.
 
-Lemma cmpnum_is_exact a b :
-  (num_ok a /\ num_ok b) \/ (num_nofloat a /\ num_nofloat b) ->
-  cmpnum a b = cmpnum_x a b.
+(* on well-formed numbers the code's comparison is the exact one *)
+Lemma cmpnum_is_exact a b : num_wf a -> num_wf b -> cmpnum a b = cmpnum_x a b.
 Proof.
-  intros H. unfold cmpnum_x.
-  destruct a as [za|na|fa], b as [zb|nb|fb]; unfold cmpnum, nkey, to_float, int_to_fl.
-  - rewrite xcmp_int. reflexivity.
-  - rewrite xcmp_int.
+  intros Ha Hb. unfold cmpnum_x.
+  destruct a as [za|na|fa], b as [zb|nb|fb]; unfold cmpnum.
+  - unfold nkey. rewrite xcmp_int. reflexivity.
+  - unfold nkey. rewrite xcmp_int.
     destruct (Z.ltb_spec za 0); [symmetry; apply Z.compare_lt_iff; lia | reflexivity].
-  - rewrite fcmp_xcmp. destruct H as [[Ha _]|[_ Hb]]; [|contradiction].
-    simpl in Ha; unfold float_exact in Ha. rewrite Ha. reflexivity.
-  - rewrite xcmp_int.
+  - apply (cmp_int_float_exact (NS za) fb Ha).
+  - unfold nkey. rewrite xcmp_int.
     destruct (Z.ltb_spec zb 0); [symmetry; apply Z.compare_gt_iff; lia | reflexivity].
-  - rewrite xcmp_int. symmetry. apply N2Z.inj_compare.
-  - rewrite fcmp_xcmp. destruct H as [[Ha _]|[_ Hb]]; [|contradiction].
-    simpl in Ha; unfold float_exact in Ha. rewrite Ha. reflexivity.
-  - rewrite fcmp_xcmp. destruct H as [[_ Hb]|[Ha _]]; [|contradiction].
-    simpl in Hb; unfold float_exact in Hb. rewrite Hb. reflexivity.
-  - rewrite fcmp_xcmp. destruct H as [[_ Hb]|[Ha _]]; [|contradiction].
-    simpl in Hb; unfold float_exact in Hb. rewrite Hb. reflexivity.
+  - unfold nkey. rewrite xcmp_int. symmetry. apply N2Z.inj_compare.
+  - apply (cmp_int_float_exact (NU na) fb Ha).
+  - rewrite (cmp_int_float_exact (NS zb) fa Hb). symmetry. apply xcmp_antisym.
+  - rewrite (cmp_int_float_exact (NU nb) fa Hb). symmetry. apply xcmp_antisym.
   - apply fcmp_xcmp.
 Qed.
 
 Lemma cmpnum_x_strans a b c : strans cmpnum_x a b c.
 Proof. unfold strans, cmpnum_x. apply xcmp_strans. Qed.
 
-Lemma cmpnum_strans_ok a b c :
-  num_ok a -> num_ok b -> num_ok c -> strans cmpnum a b c.
+Lemma cmpnum_strans a b c :
+  num_wf a -> num_wf b -> num_wf c -> strans cmpnum a b c.
 Proof.
   intros Ha Hb Hc. unfold strans.
-  rewrite !cmpnum_is_exact by (left; auto). apply cmpnum_x_strans.
-Qed.
-
-Lemma cmpnum_strans_nofloat a b c :
-  num_nofloat a -> num_nofloat b -> num_nofloat c -> strans cmpnum a b c.
-Proof.
-  intros Ha Hb Hc. unfold strans.
-  rewrite !cmpnum_is_exact by (right; auto). apply cmpnum_x_strans.
-Qed.
-
-(* The code's comparison is NOT transitive when an integer beyond 2^53 meets a float. *)
-Lemma cmpnum_not_transitive :
-  exists a b c, cmpnum a b <> Gt /\ cmpnum b c <> Gt /\ cmpnum a c = Gt.
-Proof.
-  exists (NS (2 ^ 53 + 1)), (NF (FFin 1 53)), (NS (2 ^ 53)).
-  vm_compute. repeat split; congruence.
+  rewrite !cmpnum_is_exact by assumption. apply cmpnum_x_strans.
 Qed.
 
 (* ---------------------------------------------------------------- values *)
@@ -412,34 +454,14 @@ End Values.
 Theorem cmpv_antisym nm a b : cmpv nm b a = CompOpp (cmpv nm a b).
 Proof. apply (cmpv_gen_antisym cmpnum nm cmpnum_antisym). Qed.
 
-(* Guard 1: every integer in the three values is exactly representable as a
-   float64 (in particular |z| <= 2^53).  Guard 2: no floats at all. *)
-Definition exactv : value -> Prop := all_nums num_ok.
-Definition nofloatv : value -> Prop := all_nums num_nofloat.
+(* Well-formed values: every integer at any depth lies in its 64-bit range. *)
+Definition wfv : value -> Prop := all_nums num_wf.
 
-Theorem cmpv_strans_exact nm a b c :
-  exactv a -> exactv b -> exactv c -> strans (cmpv nm) a b c.
-Proof. apply (cmpv_gen_strans cmpnum nm num_ok cmpnum_strans_ok). Qed.
+Theorem cmpv_strans nm a b c : wfv a -> wfv b -> wfv c -> strans (cmpv nm) a b c.
+Proof. apply (cmpv_gen_strans cmpnum nm num_wf cmpnum_strans). Qed.
 
-Theorem cmpv_strans_nofloat nm a b c :
-  nofloatv a -> nofloatv b -> nofloatv c -> strans (cmpv nm) a b c.
-Proof. apply (cmpv_gen_strans cmpnum nm num_nofloat cmpnum_strans_nofloat). Qed.
-
-(* The domains on which the code's comparison is a total preorder. *)
-Definition good_dom (D : value -> Prop) : Prop :=
-  D vnull /\ forall nm a b c, D a -> D b -> D c -> strans (cmpv nm) a b c.
-
-Lemma good_exact : good_dom exactv.
-Proof. split; [exact I | intros; apply cmpv_strans_exact; assumption]. Qed.
-Lemma good_nofloat : good_dom nofloatv.
-Proof. split; [exact I | intros; apply cmpv_strans_nofloat; assumption]. Qed.
-
-Theorem cmpv_transitive_refuted :
-  exists nm a b c, cmpv nm a b <> Gt /\ cmpv nm b c <> Gt /\ cmpv nm a c = Gt.
-Proof.
-  exists true, (VInt I64 (2 ^ 53 + 1)), (VFloat F64 (FFin 1 53)), (VInt I64 (2 ^ 53)).
-  vm_compute. repeat split; congruence.
-Qed.
+Lemma wfv_in_range v : wfv v -> in_range v.
+Proof. destruct v; simpl; auto. Qed.
 
 (* ---------------------------------------------------------------- rows *)
 Lemma compare_rows_antisym nm ks : forall ra rb,
@@ -460,10 +482,13 @@ Proof. intros H0 H. destruct r; simpl; [assumption | inversion H; assumption]. Q
 Lemma rowD_tl (D : value -> Prop) r : rowD D r -> rowD D (tl r).
 Proof. intros H. destruct r; simpl; [constructor | inversion H; assumption]. Qed.
 
-Lemma compare_rows_strans (D : value -> Prop) nm ks : good_dom D -> forall ra rb rc,
-  rowD D ra -> rowD D rb -> rowD D rc -> strans (compare_rows nm ks) ra rb rc.
+Lemma compare_rows_strans nm ks : forall ra rb rc,
+  rowD wfv ra -> rowD wfv rb -> rowD wfv rc -> strans (compare_rows nm ks) ra rb rc.
 Proof.
-  intros [D0 HD]. induction ks as [|d ks IH]; intros ra rb rc Da Db Dc; unfold strans; simpl.
+  pose (D := wfv). assert (D0 : D vnull) by exact I.
+  assert (HD : forall nm a b c, D a -> D b -> D c -> strans (cmpv nm) a b c)
+    by (intros; apply cmpv_strans; assumption).
+  induction ks as [|d ks IH]; intros ra rb rc Da Db Dc; unfold strans; simpl.
   - reflexivity.
   - pose proof (rowD_hd D ra D0 Da) as Ha. pose proof (rowD_hd D rb D0 Db) as Hb.
     pose proof (rowD_hd D rc D0 Dc) as Hc.
@@ -489,35 +514,35 @@ Proof. rewrite cmpv_antisym. apply cmp_to_Z_opp. Qed.
 Theorem cmpv_refl_Z nm a : cmp_to_Z (cmpv nm a a) = 0.
 Proof. pose proof (cmpv_antisym_Z nm a a). lia. Qed.
 
-Theorem cmpv_trans_guarded nm a b c :
-  (exactv a /\ exactv b /\ exactv c) \/ (nofloatv a /\ nofloatv b /\ nofloatv c) ->
+Theorem cmpv_trans_Z nm a b c :
+  wfv a -> wfv b -> wfv c ->
   cmp_to_Z (cmpv nm a b) <= 0 -> cmp_to_Z (cmpv nm b c) <= 0 -> cmp_to_Z (cmpv nm a c) <= 0.
 Proof.
-  rewrite !cmp_to_Z_le. intros [[Ha [Hb Hc]]|[Ha [Hb Hc]]].
-  - apply strans_le. apply cmpv_strans_exact; assumption.
-  - apply strans_le. apply cmpv_strans_nofloat; assumption.
+  rewrite !cmp_to_Z_le. intros Ha Hb Hc. apply strans_le. apply cmpv_strans; assumption.
 Qed.
 
 Theorem compare_rows_antisym_Z nm ks ra rb :
   cmp_to_Z (compare_rows nm ks rb ra) = - cmp_to_Z (compare_rows nm ks ra rb).
 Proof. rewrite compare_rows_antisym. apply cmp_to_Z_opp. Qed.
 
-Theorem compare_rows_trans_guarded nm ks ra rb rc :
-  (rowD exactv ra /\ rowD exactv rb /\ rowD exactv rc) \/
-  (rowD nofloatv ra /\ rowD nofloatv rb /\ rowD nofloatv rc) ->
+Theorem compare_rows_trans_Z nm ks ra rb rc :
+  rowD wfv ra -> rowD wfv rb -> rowD wfv rc ->
   cmp_to_Z (compare_rows nm ks ra rb) <= 0 -> cmp_to_Z (compare_rows nm ks rb rc) <= 0 ->
   cmp_to_Z (compare_rows nm ks ra rc) <= 0.
 Proof.
-  rewrite !cmp_to_Z_le. intros [[Ha [Hb Hc]]|[Ha [Hb Hc]]]; apply strans_le.
-  - apply (compare_rows_strans exactv nm ks good_exact); assumption.
-  - apply (compare_rows_strans nofloatv nm ks good_nofloat); assumption.
+  rewrite !cmp_to_Z_le. intros Ha Hb Hc. apply strans_le.
+  apply compare_rows_strans; assumption.
 Qed.
 
-(* non-vacuity of the guards *)
-Example guard_inhabited :
-  exactv (VArray (TPrim 9) [VInt I64 (2 ^ 53); VFloat F64 (FFin 3 (-1)); VNull (TPrim 9)]) /\
-  nofloatv (VUint U64 18446744073709551615).
-Proof. split; simpl; unfold float_exact; repeat split; vm_compute; reflexivity. Qed.
+(* non-vacuity: integers beyond 2^53 next to floats, nested, are well-formed;
+   the former counterexample is now ordered consistently *)
+Example wfv_inhabited :
+  wfv (VArray (TPrim 9) [VInt I64 (2 ^ 53 + 1); VFloat F64 (FFin 1 53); VNull (TPrim 9)]) /\
+  wfv (VUint U64 18446744073709551615) /\
+  cmpv true (VInt I64 (2 ^ 53 + 1)) (VFloat F64 (FFin 1 53)) = Gt /\
+  cmpv true (VFloat F64 (FFin 1 53)) (VInt I64 (2 ^ 53)) = Eq /\
+  cmpv true (VUint U64 18446744073709551615) (VFloat F64 (FFin 1 64)) = Lt.
+Proof. repeat split; unfold mini64, maxi64; simpl; try lia; vm_compute; reflexivity. Qed.
 
 (* ---------------------------------------------------------------- native fast path *)
 Lemma less_rows_slow nm native ks : forall ra rb,
